@@ -74,7 +74,8 @@ C09_NoForeignAdopt(job, pods) ==
     job.ex => \A r \in Range(job.refs) : \A p \in Range(pods) : p.name = r.name => p.mine
 C09_Listed(job, pods) == (job.ex /\ ~job.del) => \A p \in Mine(pods) : \E r \in Range(job.refs) : r.name = p.name
 \* a foreign object occupying a needed task name ends the Job in AdmissionError (instead of waiting forever)
-C09_ForeignEnds(cfg, job) == (cfg.foreign /\ job.ex /\ job.started /\ ~job.del /\ job.kill = 0) => job.phase = "AdmissionError"
+C09_ForeignEnds(job, pods) ==
+    ((\E p \in Range(pods) : ~p.mine) /\ job.ex /\ job.started /\ ~job.del /\ job.kill = 0) => job.phase = "AdmissionError"
 
 \* ---------- C10 ----------
 C10_SuccOnly(cfg, job, succ) == (job.ex /\ job.result = "Success") => Satisfied(cfg, succ)
@@ -97,10 +98,10 @@ C10_Reaches(cfg, job, pods, nokube) ==
     (job.ex /\ job.started /\ ~job.del /\ ~job.adm /\ job.kill = 0 /\ DecidedRec(cfg, job) /\ ~StuckPod(cfg, pods, nokube)) =>
         /\ job.kind = "Finished"
         /\ ~\E p \in Mine(pods) : Alive(p) /\ p.del = 0
-\* an undecided, unkilled, started Job keeps working: every unfinished index has a live attempt or a pending retry
+\* an undecided, unkilled, started Job keeps working: every index that has neither succeeded nor used up its attempts has a live attempt
 C10_Progress(cfg, job, pods) ==
     (job.ex /\ job.started /\ ~job.del /\ ~job.adm /\ job.kill = 0 /\ job.kind # "Finished" /\ ~DecidedRec(cfg, job)) =>
-        \A i \in IdxOf(cfg) : SucceededRec(job, i) \/ \E p \in Mine(pods) : p.idx = i /\ Alive(p)
+        \A i \in IdxOf(cfg) : SucceededRec(job, i) \/ ExhaustedRec(cfg, job, i) \/ \E p \in Mine(pods) : p.idx = i /\ Alive(p)
 
 \* ---------- C11 ----------
 StateOf(k) == CASE k = "Queueing" -> "Queued" [] k = "Waiting" -> "Waiting" [] k = "Running" -> "Running" [] k = "Finished" -> "Finished" [] OTHER -> "?"
@@ -122,15 +123,21 @@ C11_MonotoneStep(job, jobN, editedN) ==
 
 \* ---------- C12 ----------
 \* a graceful, controller-issued delete of a live owned Pod must have a reason that is valid at that instant
-C12_DeleteJustifiedStep(cfg, dels, force, pods, podsN, pass, nowN, everN, succN) ==
-    ~force => \A p \in Mine(pods) : (p.name \in dels /\ Alive(p) /\ p.del = 0) =>
+C12_DeleteJustifiedStep(cfg, dels, pods, podsN, pass, nowN, everN, succN) ==
+    \A p \in Mine(pods) : (p.name \in dels /\ Alive(p) /\ p.del = 0) =>
         \/ (pass.j.kill # 0 /\ pass.j.kill <= nowN)
-        \/ (cfg.pt > 0 /\ nowN >= p.cr + cfg.pt /\ \A q \in PodNamed(pass.p, p.name) : ~q.ran)
+        \* pending timeout, judged on what the pass could see of the task of that name: the cached Pod (its creation time,
+        \* never seen running), or - for a Pod the pass created itself - the Pod's own creation time
+        \/ (cfg.pt > 0 /\ \E q \in PodNamed(pass.p, p.name) : ~q.ran /\ nowN >= q.cr + cfg.pt)
+        \/ (cfg.pt > 0 /\ PodNamed(pass.p, p.name) = {} /\ nowN >= p.cr + cfg.pt)
         \/ pass.j.del
         \/ DecidedTruth(cfg, podsN, everN, succN)
-C12_ForceGateStep(cfg, dels, force, pods, nowN) ==
-    force => \A p \in Mine(pods) : p.name \in dels =>
-        (p.del # 0 /\ cfg.fd > 0 /\ nowN >= p.del + cfg.fd /\ ~cfg.forbid)
+C12_ForceGateStep(cfg, fdels, pods, pass, nowN) ==
+    \A p \in Mine(pods) : p.name \in fdels =>
+        /\ cfg.fd > 0 /\ ~cfg.forbid
+        \* the deletion timestamp is the one the pass could see on the task of that name (or the Pod's own)
+        /\ \/ (p.del # 0 /\ nowN >= p.del + cfg.fd)
+           \/ \E q \in PodNamed(pass.p, p.name) : q.del # 0 /\ nowN >= q.del + cfg.fd
 \* a task reaped for pending timeout is recorded as a killed attempt (reason PendingTimeout) and counts towards maxAttempts
 C12_KillCompletes(cfg, job, pods, now, nokube) ==
     (job.ex /\ job.started /\ ~job.del /\ job.kill # 0 /\ job.kill <= now) =>
@@ -145,10 +152,14 @@ C13_OrderStep(job, jobN, podsN) == (job.ex /\ ~jobN.ex) => \A r \in Range(job.re
 \* judged when the Job leaves the API after a controller-issued delete at instant ttlAt: it must be finished, and the
 \* delete must not precede (finish + TTL) for the recorded finish time or for the instant doneAt at which the Job
 \* was over in truth (the recorded finish time can move later when the write that records it is retried)
-C13_TTLNotEarlyStep(cfg, job, jobN, ttlAt, userDeleted, doneAt) ==
+\* or for the finish time an up-to-date pass computes once the Job is over: the latest finish time of its tasks
+\* (lastFin, ground truth), else the kill time
+C13_TTLNotEarlyStep(cfg, job, jobN, ttlAt, userDeleted, doneAt, lastFin) ==
     (job.ex /\ ~jobN.ex /\ ttlAt # 0 /\ ~userDeleted) =>
         \/ (job.kind = "Finished" /\ ttlAt >= job.fints + cfg.ttl)
         \/ (doneAt # 0 /\ ttlAt >= doneAt + cfg.ttl)
+        \/ (doneAt # 0 /\ lastFin # 0 /\ ttlAt >= lastFin + cfg.ttl)
+        \/ (doneAt # 0 /\ lastFin = 0 /\ job.kill # 0 /\ ttlAt >= job.kill + cfg.ttl)
 C13_DeletionCompletes(job, pods, nokube) == (job.ex /\ job.del) => \E p \in Mine(pods) : p.name \in nokube
 C13_TTLEventually(cfg, job, now) == (job.ex /\ job.kind = "Finished" /\ now >= job.fints + cfg.ttl) => job.del
 ====
